@@ -65,7 +65,7 @@ pub enum BurnAmt {
 pub enum VaultSel {
     /// the vault of the current window under the store's current window length (may not exist yet)
     Current,
-    /// the k-th vault ever prepared (possibly of a past window or of a different window length)
+    /// the k-th most recently prepared vault (possibly of a past window or of a different window length)
     Known(u8),
 }
 
@@ -208,6 +208,11 @@ impl<'a> Run<'a> {
     fn judge(&self, tx: &Tx) -> Result<(), &'static str> {
         let m = &self.m;
         let now = self.now();
+        // after a cluster restart every role-gated instruction is refused until the admin acknowledges it
+        // (only RESTART_ADMIN holders may act; the fixture has none)
+        if m.outdated && matches!(tx, Tx::Mint { .. } | Tx::Confirm { .. } | Tx::Close { .. } | Tx::UpdateCumInv { .. }) {
+            return Err("store_outdated");
+        }
         match tx {
             Tx::Mint { user, amount, by } => {
                 if !self.a.has_gc[*by] {
@@ -474,7 +479,7 @@ impl<'a> Run<'a> {
                 };
                 let (vault_key, vidx) = match vault {
                     VaultSel::Known(k) if !m.vaults.is_empty() => {
-                        let i = k as usize % m.vaults.len();
+                        let i = m.vaults.len() - 1 - k as usize % m.vaults.len();
                         (m.vaults[i].key, Some(i))
                     }
                     _ => {
@@ -495,13 +500,13 @@ impl<'a> Run<'a> {
                 if m.vaults.is_empty() {
                     return None;
                 }
-                Tx::Confirm { vault: vault as usize % m.vaults.len(), by: by as usize % N_BY }
+                Tx::Confirm { vault: m.vaults.len() - 1 - vault as usize % m.vaults.len(), by: by as usize % N_BY }
             }
             Step::Close { exchange, by } => {
                 if m.exchanges.is_empty() {
                     return None;
                 }
-                Tx::Close { exchange: exchange as usize % m.exchanges.len(), by: by as usize % N_BY }
+                Tx::Close { exchange: m.exchanges.len() - 1 - exchange as usize % m.exchanges.len(), by: by as usize % N_BY }
             }
             Step::UpdateCumInv { by } => Tx::UpdateCumInv { by: by as usize % N_BY },
             Step::FixRestart => Tx::FixRestart,
@@ -532,7 +537,7 @@ impl<'a> Run<'a> {
                         obs.violation(
                             P,
                             "rank_is_threshold_count",
-                            format!("after={after},zero_threshold={},touched={touched}", cfg.ranks.first() == Some(&0)),
+                            format!("zero_threshold={},touched={touched},after={after}", cfg.ranks.first() == Some(&0)),
                             format!("user #{u}: balance {amount}, rank {rank}, thresholds {:?} => expected rank {want}", cfg.ranks),
                         );
                     }
@@ -713,12 +718,14 @@ impl Scenario for GtSim {
             ranks.push(cur);
             cur += if rng.chance(1, 5) { 1 } else { rng.range(1, 10 * scale) };
         }
+        // the grow step is tied to the scale of the thresholds so that threshold-sized mints cross 0..~100 steps
         let grow_step = match rng.below(10) {
-            0 => 1,
-            1 => rng.range(2, 10),
-            2..=6 => rng.range(1, 20) * scale,
-            7 => 100_000 * 10u64.pow(rng.range(0, 4) as u32),
-            _ => rng.log_u64(1 << 62),
+            0 if scale <= 10 => 1,
+            1 if scale <= 10 => rng.range(2, 10),
+            0..=6 => rng.range(1, 20) * scale,
+            7 => 100_000 * scale.min(1000),
+            8 => (scale / 10).max(1) * rng.range(1, 9),
+            _ => rng.log_u64(1 << 62).max(scale),
         };
         let grow_factor = match rng.below(10) {
             0 => UNIT,
@@ -767,10 +774,16 @@ impl Scenario for GtSim {
             },
         } as usize;
         let nu = n_users as u64;
-        let mut steps = vec![];
+        let mut steps: Vec<Step> = vec![];
         // "typical" mint magnitude of this run
-        let mag = *rng.pick(&[grow_step / 3 + 1, grow_step, grow_step.saturating_mul(3), scale, scale.saturating_mul(50)]);
-        for _ in 0..n_steps {
+        let mag = (*rng.pick(&[grow_step / 3 + 1, grow_step, grow_step.saturating_mul(3), scale, scale.saturating_mul(50)])).min(grow_step.saturating_mul(200));
+        // generation-time shadow (biasing only): is there a vault for the current window, is the store outdated,
+        // how many users hold something, is a protocol (prepare -> request -> boundary -> confirm -> close) in flight
+        let mut vault_ready = false;
+        let mut outdated = false;
+        let mut minted = false;
+        let mut queue: Vec<Step> = vec![];
+        while steps.len() < n_steps {
             let by_good = |rng: &mut Rng| if rng.bool() { 0u8 } else { 3 };
             let by = |rng: &mut Rng| -> u8 {
                 if faults && rng.chance(1, 8) {
@@ -779,64 +792,118 @@ impl Scenario for GtSim {
                     by_good(rng)
                 }
             };
-            let st = match rng.below(100) {
-                0..=29 => {
-                    let amount = match rng.below(10) {
-                        0..=3 => MintAmt::Abs(rng.range(1, mag.max(1))),
-                        4..=5 if !cfg.ranks.is_empty() => MintAmt::ToThreshold { idx: rng.below(15) as u8, off: rng.range_i64(-1, 1) as i8 },
-                        6..=7 => MintAmt::ToStep { n: if rng.chance(3, 4) { 0 } else { rng.range(1, 40) as u16 }, off: rng.range_i64(-1, 1) as i8 },
-                        8 => MintAmt::Abs(rng.log_u64(u64::MAX)),
-                        _ => MintAmt::Abs(if faults { *rng.pick(&[0u64, 1, u64::MAX, u64::MAX / 2]) } else { 1 }),
-                    };
-                    let split = if rng.chance(1, 3) { Some((rng.range(2, 5) as u8, rng.below(nu) as u8)) } else { None };
-                    Step::Mint { user: rng.below(nu) as u8, amount, by: by(&mut rng), split }
-                }
-                30..=49 => {
-                    let amount = match rng.below(10) {
-                        0..=2 => BurnAmt::Abs(rng.range(0, mag.max(1))),
-                        3..=4 => BurnAmt::All,
-                        5..=7 if !cfg.ranks.is_empty() => BurnAmt::DownToThreshold { idx: rng.below(15) as u8, off: rng.range_i64(-1, 1) as i8 },
-                        8 if faults => BurnAmt::OverBy(rng.range(1, 3) as u8),
-                        _ => BurnAmt::Abs(rng.log_u64(mag.max(2))),
-                    };
-                    let vault = if rng.chance(3, 4) || !faults { VaultSel::Current } else { VaultSel::Known(rng.below(8) as u8) };
-                    let signer = if faults && rng.chance(1, 10) { Some(rng.below(nu) as u8) } else { None };
-                    Step::Request { user: rng.below(nu) as u8, signer, amount, vault }
-                }
-                50..=59 => Step::PrepareVault { index_off: if faults && rng.chance(1, 4) { rng.range_i64(-2, 2) as i8 } else { 0 }, payer: rng.below(nu) as u8 },
-                60..=71 => Step::Confirm { vault: rng.below(8) as u8, by: by(&mut rng) },
-                72..=77 => Step::Close { exchange: rng.below(8) as u8, by: by(&mut rng) },
-                78..=79 => Step::UpdateCumInv { by: by(&mut rng) },
-                80..=87 => Step::ToBoundary { off: if rng.chance(1, 3) { 0 } else { rng.range_i64(-2, 2) as i8 } },
-                88..=94 => {
-                    let secs = match rng.below(10) {
-                        0..=4 => rng.range(1, window as u64) as i64,
-                        5..=6 => rng.range(window as u64, 3 * window as u64) as i64,
-                        7 => 0,
-                        8 if faults => -(rng.range(1, 5) as i64),
-                        9 if faults && rng.chance(1, 4) => 1i64 << rng.range(34, 62),
-                        _ => rng.range(1, 100) as i64,
-                    };
-                    Step::Advance { secs }
-                }
-                95..=96 => {
-                    let w = match rng.below(6) {
-                        0 => 1,
-                        1 => DEFAULT_WINDOW,
-                        2 if faults => 0,
-                        _ => rng.log_u64(10 * 86400) as u32,
-                    };
-                    Step::SetWindow { window: w }
-                }
-                97..=98 if faults => Step::Restart,
-                _ => {
-                    if faults {
-                        Step::FixRestart
-                    } else {
-                        Step::PrepareVault { index_off: 0, payer: 0 }
-                    }
+            let mint_amt = |rng: &mut Rng| -> MintAmt {
+                match rng.below(20) {
+                    0..=7 => MintAmt::Abs(rng.range(1, mag.max(1))),
+                    8..=11 if !cfg.ranks.is_empty() => MintAmt::ToThreshold { idx: rng.below(15) as u8, off: rng.range_i64(-1, 1) as i8 },
+                    12..=15 => MintAmt::ToStep { n: if rng.chance(3, 4) { 0 } else { rng.range(1, 40) as u16 }, off: rng.range_i64(-1, 1) as i8 },
+                    16 => MintAmt::Abs(rng.log_u64(u64::MAX)),
+                    17 if faults => MintAmt::Abs(*rng.pick(&[0u64, 1, u64::MAX, u64::MAX / 2])),
+                    _ => MintAmt::Abs(rng.log_u64(mag.max(2))),
                 }
             };
+            let burn_amt = |rng: &mut Rng| -> BurnAmt {
+                match rng.below(10) {
+                    0..=2 => BurnAmt::Abs(rng.range(0, mag.max(1))),
+                    3..=4 => BurnAmt::All,
+                    5..=7 if !cfg.ranks.is_empty() => BurnAmt::DownToThreshold { idx: rng.below(15) as u8, off: rng.range_i64(-1, 1) as i8 },
+                    8 if faults => BurnAmt::OverBy(rng.range(1, 3) as u8),
+                    _ => BurnAmt::Abs(rng.log_u64(mag.max(2))),
+                }
+            };
+            // an in-flight exchange protocol is continued with probability 1/2 per step, so that other traffic
+            // (and faults) lands between its stages
+            let st = if !queue.is_empty() && rng.chance(1, 2) {
+                queue.remove(0)
+            } else if outdated && rng.chance(1, 3) {
+                Step::FixRestart
+            } else {
+                match rng.below(100) {
+                    0..=27 => {
+                        let split = if rng.chance(1, 3) { Some((rng.range(2, 5) as u8, rng.below(nu) as u8)) } else { None };
+                        Step::Mint { user: rng.below(nu) as u8, amount: mint_amt(&mut rng), by: by(&mut rng), split }
+                    }
+                    28..=43 => {
+                        if !vault_ready && rng.chance(3, 4) {
+                            Step::PrepareVault { index_off: 0, payer: rng.below(nu) as u8 }
+                        } else {
+                            let vault = if rng.chance(3, 4) || !faults { VaultSel::Current } else { VaultSel::Known(rng.below(8) as u8) };
+                            let signer = if faults && rng.chance(1, 10) { Some(rng.below(nu) as u8) } else { None };
+                            Step::Request { user: rng.below(nu) as u8, signer, amount: burn_amt(&mut rng), vault }
+                        }
+                    }
+                    44..=55 if queue.is_empty() && minted => {
+                        // whole protocol: prepare, (mint,) request(s), cross the boundary, confirm, close
+                        let u = rng.below(nu) as u8;
+                        queue.push(Step::PrepareVault { index_off: 0, payer: u });
+                        if rng.bool() {
+                            queue.push(Step::Mint { user: u, amount: mint_amt(&mut rng), by: by_good(&mut rng), split: None });
+                        }
+                        for _ in 0..rng.range(1, 3) {
+                            let who = if rng.chance(2, 3) { u } else { rng.below(nu) as u8 };
+                            queue.push(Step::Request { user: who, signer: None, amount: burn_amt(&mut rng), vault: VaultSel::Current });
+                        }
+                        match rng.below(4) {
+                            0 => {
+                                // confirm attempted just before the boundary, then after it
+                                queue.push(Step::ToBoundary { off: -1 });
+                                queue.push(Step::Confirm { vault: 0, by: by_good(&mut rng) });
+                                queue.push(Step::Advance { secs: 1 });
+                            }
+                            1 => queue.push(Step::ToBoundary { off: 0 }),
+                            2 => queue.push(Step::ToBoundary { off: rng.range_i64(0, 2) as i8 }),
+                            _ => queue.push(Step::Advance { secs: rng.range(window as u64, 2 * window as u64) as i64 }),
+                        }
+                        if faults && rng.chance(1, 3) {
+                            // a late (stale) request into the vault that is about to be confirmed
+                            queue.push(Step::Request { user: u, signer: None, amount: burn_amt(&mut rng), vault: VaultSel::Known(0) });
+                        }
+                        queue.push(Step::Confirm { vault: 0, by: by(&mut rng) });
+                        if rng.chance(1, 4) {
+                            queue.push(Step::Confirm { vault: 0, by: by_good(&mut rng) }); // duplicate
+                        }
+                        for k in 0..rng.range(0, 2) {
+                            queue.push(Step::Close { exchange: k as u8, by: by(&mut rng) });
+                        }
+                        queue.remove(0)
+                    }
+                    44..=51 => Step::PrepareVault { index_off: if faults && rng.chance(1, 3) { rng.range_i64(-2, 2) as i8 } else { 0 }, payer: rng.below(nu) as u8 },
+                    52..=61 => Step::Confirm { vault: rng.below(4) as u8, by: by(&mut rng) },
+                    62..=69 => Step::Close { exchange: rng.below(6) as u8, by: by(&mut rng) },
+                    70..=71 => Step::UpdateCumInv { by: by(&mut rng) },
+                    72..=81 => Step::ToBoundary { off: if rng.chance(1, 3) { 0 } else { rng.range_i64(-2, 2) as i8 } },
+                    82..=92 => {
+                        let secs = match rng.below(10) {
+                            0..=4 => rng.range(1, window as u64) as i64,
+                            5..=6 => rng.range(window as u64, 3 * window as u64) as i64,
+                            7 => 0,
+                            9 if faults && rng.chance(1, 4) => 1i64 << rng.range(34, 62),
+                            _ => rng.range(1, 100) as i64,
+                        };
+                        Step::Advance { secs }
+                    }
+                    93..=94 => {
+                        let w = match rng.below(6) {
+                            0 => 1,
+                            1 => DEFAULT_WINDOW,
+                            2 if faults => 0,
+                            _ => rng.log_u64(10 * 86400) as u32,
+                        };
+                        Step::SetWindow { window: w }
+                    }
+                    95..=96 if faults => Step::Restart,
+                    97 if faults => Step::FixRestart,
+                    _ => Step::Mint { user: rng.below(nu) as u8, amount: MintAmt::Abs(rng.range(1, mag.max(1))), by: by_good(&mut rng), split: None },
+                }
+            };
+            match st {
+                Step::PrepareVault { index_off: 0, .. } if !outdated => vault_ready = true,
+                Step::Advance { .. } | Step::ToBoundary { .. } | Step::SetWindow { .. } => vault_ready = false,
+                Step::Restart => outdated = true,
+                Step::FixRestart => outdated = false,
+                Step::Mint { by: 0 | 3, .. } if !outdated => minted = true,
+                _ => {}
+            }
             steps.push(st);
         }
         (cfg, steps)
@@ -919,6 +986,8 @@ impl Scenario for GtSim {
             obs.set_step(i);
             match *st {
                 Step::Advance { secs } => {
+                    // Solana clamps Clock.unix_timestamp to be non-decreasing: never step backwards
+                    let secs = secs.max(0);
                     let before = run.now();
                     let t = before.saturating_add(secs).max(0);
                     run.w.clock.unix_timestamp = t;
@@ -926,7 +995,6 @@ impl Scenario for GtSim {
                     obs.sim_seconds += secs.max(0) as u64;
                     match secs {
                         0 => obs.fault("clock_stall"),
-                        x if x < 0 => obs.fault("clock_regression"),
                         x if x >= 1 << 34 => obs.fault("clock_extreme_jump"),
                         x if x >= run.m.window as i64 => obs.fault("clock_jump_over_window"),
                         _ => {}
@@ -1171,7 +1239,7 @@ impl Scenario for GtSim {
     }
 
     fn rule(&self) -> String {
-        "one run = 2-6 users, a rank table of 0-15 thresholds, cost0 / grow factor (growing, flat, decaying, 2x) / grow step (1 .. 2^62), an exchange window of 1 s .. 30 d and 5-400 steps: mint_gt_reward (random, to a threshold -1/0/+1, to a grow-step boundary -1/0/+1, several steps at once, extreme amounts; with a fork probe that mints the same total in 2-5 pieces over two users), request_gt_exchange (random, all, down to a threshold -1/0/+1, over balance; current vault or any earlier vault), prepare vault (current / neighbouring index), confirm, close, clock advances, jumps to a window boundary -2..+2 s, stalls; the fault batch adds signers without GT_CONTROLLER, foreign signers, clock regressions and extreme jumps, window changes, cluster restarts. distinct_nontrivial counts trigrams of (signer role, instruction, outcome class) plus fingerprints (rank vector, grow steps, vault/exchange counts, outdated flag)".into()
+        "one run = 2-6 users, a rank table of 0-15 thresholds, cost0 / grow factor (growing, flat, decaying, 2x) / grow step (1 .. 2^62), an exchange window of 1 s .. 30 d and 5-400 steps: mint_gt_reward (random, to a threshold -1/0/+1, to a grow-step boundary -1/0/+1, several steps at once, extreme amounts; with a fork probe that mints the same total in 2-5 pieces over two users), request_gt_exchange (random, all, down to a threshold -1/0/+1, over balance; current vault or any earlier vault), prepare vault (current / neighbouring index), confirm, close, clock advances, jumps to a window boundary -2..+2 s, stalls; the fault batch adds signers without GT_CONTROLLER, foreign signers, extreme clock jumps, window changes, cluster restarts. distinct_nontrivial counts trigrams of (signer role, instruction, outcome class) plus fingerprints (rank vector, grow steps, vault/exchange counts, outdated flag)".into()
     }
 }
 
